@@ -177,9 +177,23 @@ func (eval Evaluator) MultiplyByDiagMatrix(ctIn *rlwe.Ciphertext, matrix LinearT
 	keys := utils.GetSortedKeys(matrix.Vec)
 
 	var state bool
-	if keys[0] == 0 {
+	if len(keys) > 0 && keys[0] == 0 {
 		state = true
 		keys = keys[1:]
+	}
+
+	// No diagonal other than (possibly) the main one: there is no rotation to accumulate in QP.
+	if len(keys) == 0 {
+
+		opOut.Value[0].Zero()
+		opOut.Value[1].Zero()
+
+		if state { // Rotation by zero
+			ringQ.MulCoeffsMontgomery(matrix.Vec[0].Q, ctInTmp0, opOut.Value[0]) // opOut = c0_Q * plaintext
+			ringQ.MulCoeffsMontgomery(matrix.Vec[0].Q, ctInTmp1, opOut.Value[1]) // opOut = c1_Q * plaintext
+		}
+
+		return
 	}
 
 	for i, k := range keys {
@@ -304,6 +318,13 @@ func (eval Evaluator) MultiplyByDiagMatrixBSGS(ctIn *rlwe.Ciphertext, matrix Lin
 	ringQ.MulScalarBigint(ctInTmp1, ringP.ModulusAtLevel[levelP], ctInTmp1) // P*c1
 
 	keys := utils.GetSortedKeys(index)
+
+	// The zero matrix: there is nothing to accumulate.
+	if len(keys) == 0 {
+		opOut.Value[0].Zero()
+		opOut.Value[1].Zero()
+		return
+	}
 
 	// OUTER LOOP
 	var cnt0 int
